@@ -948,6 +948,7 @@ func runC02(ctx *core.Ctx) {
 		ctx.Add("c02.mergeSeq", map[string]any{"a": seqArg(), "b": seqArg(), "c": seqArg(), "d": seqArg()})
 	}
 	runC02MergeRepeat(ctx)
+	runC02StageRepeat(ctx)
 	for i := 0; i < ctx.Pick(6000, 100000); i++ {
 		ctx.Count("merge-random")
 		ctx.Add("c02.merge", c02MergeArgs{Base: core.EncodeVal(c02TopMap(ctx)), Over: core.EncodeVal(c02TopMap(ctx))})
